@@ -18,7 +18,7 @@ RULE = ('corpus; exhaustive-small: <=3 parties, votes 0..3, n 1..4, five divisor
 PARTIAL = []
 TRUSTED = []
 DIV = {1: 'd_hondt', 2: 'sainte_lague', 3: 'imperiali', 4: 'danish', 5: 'macau'}
-COEFS = [None, None, '1', '1.2', '1.4', '1.42']
+COEFS = [None, None, '1', '1.2', '1.4', '1.42', 'default']      # 'default' = modified_first_coef(f) without a coefficient (documented 1.4)
 
 
 def divisor_obj(spec):
@@ -26,12 +26,18 @@ def divisor_obj(spec):
     f = vd.get(DIV[spec[0]])
     if len(spec) > 1:
         c = spec[1]
+        if c == 'default':
+            return vd.modified_first_coef(f)
         return vd.modified_first_coef(f, Decimal(c) if '.' in c else int(c))
     return f
 
 
+def coef_val(c):
+    return Fraction(7, 5) if c == 'default' else Fraction(c)
+
+
 def dsx(spec):
-    return sx([spec[0]] + ([Fraction(spec[1])] if len(spec) > 1 else []))
+    return sx([spec[0]] + ([coef_val(spec[1])] if len(spec) > 1 else []))
 
 
 def model_line(c):
@@ -79,7 +85,7 @@ def nontrivial(c):
 def dval(spec, k):
     d = {1: k + 1, 2: 2 * k + 1, 3: Fraction(k, 2) + 1, 4: 3 * k + 1, 5: 2 ** k}[spec[0]]
     if len(spec) > 1 and k == 0:
-        return Fraction(spec[1])
+        return coef_val(spec[1])
     return Fraction(d)
 
 
@@ -208,7 +214,7 @@ def corpus():
 def explore(ctx, widen=1):
     kw = dict(canon=canon, nontrivial=nontrivial, spec=mark_tie)
     ctx.differential('corpus', corpus(), model_line, impl, **kw)
-    grid = [dict(unit='divisor', div=dv, k=k) for dv in ([[i] for i in range(1, 6)] + [[i, '1.4'] for i in range(1, 6)] + [[1, '1.42'], [2, '1']])
+    grid = [dict(unit='divisor', div=dv, k=k) for dv in ([[i] for i in range(1, 6)] + [[i, '1.4'] for i in range(1, 6)] + [[1, '1.42'], [2, '1'], [2, 'default'], [1, 'default']])
             for k in range(0, 2000 if 'Divisor' in ctx.fallback else ctx.n(120, 300))]
     ctx.differential('divisor-grid', grid, div_model_line, div_impl, nontrivial=lambda c: False)
     ex = list(gen_exhaustive())
